@@ -2,7 +2,11 @@
    line:  crash <TAB> protocol(atomic|inplace) <TAB> fs <TAB> effects <TAB> k
    fs:      path=D | path=F:line,line,...   joined by ';'
    effects: W:path:line,line,... | R:path | M:path | X:path   joined by ';'
-   answer:  the non-temporary entries of the crash state, in the fs encoding, sorted by path *)
+   answer:  the non-temporary entries of the crash state, in the fs encoding, sorted by path
+   line:  effects <TAB> pinned <TAB> path(,) <TAB> op|op|... (the history, may be empty) <TAB> op
+   op as in the C06 driver: kind,flavor,stack,force,noaction,args...  with ~ for an absent optional string
+   answer:  ok#K:path;K:path;...  the record-level effects (Model/CrashDb.image of Db.effects) of the last op on the
+            state the model reaches by the history: K = W (write) R (remove) M (mkdir) X (rmdir);  or err:Kind *)
 let dec_lines (s : Stdlib.String.t) = dec_list ',' dec_str s
 let enc_lines l = enc_list ',' enc_str l
 
@@ -30,8 +34,38 @@ let dec_effect (s : Stdlib.String.t) =
   | ["X"; p] -> ERmdir (dec_str p)
   | _ -> failwith "bad effect"
 
+let opt (s : Stdlib.String.t) : ascii list option = if s = "~" then None else Some (dec_str s)
+
+let dec_op (s : Stdlib.String.t) : op =
+  let a = Array.of_list (Stdlib.String.split_on_char ',' s) in
+  let o = { o_flavor = dec_str a.(1); o_stack = opt a.(2); o_force = bool_of_field a.(3);
+            o_noaction = bool_of_field a.(4) } in
+  match a.(0) with
+  | "D" -> Declare (o, dec_str a.(5), dec_str a.(6), opt a.(7), opt a.(8), opt a.(9))
+  | "A" -> AssignTag (o, dec_str a.(5), dec_str a.(6), dec_str a.(7))
+  | "U" -> UnassignTag (o, dec_str a.(5), dec_str a.(6), opt a.(7))
+  | "X" -> Undeclare (o, dec_str a.(5), opt a.(6))
+  | "T" -> UndeclareTag (o, dec_str a.(5), opt a.(6), dec_str a.(7), bool_of_field a.(8))
+  | "R" -> Remove (o, dec_str a.(5), dec_str a.(6))
+  | _ -> failwith "bad op"
+
+let show_effect (e : effect) : Stdlib.String.t =
+  match e with
+  | EWrite (p, _) -> "W:" ^ enc_str p
+  | ERemove p -> "R:" ^ enc_str p
+  | EMkdir p -> "M:" ^ enc_str p
+  | ERmdir p -> "X:" ^ enc_str p
+
 let handle (f : Stdlib.String.t array) : Stdlib.String.t =
   match f.(0) with
+  | "effects" ->
+    let pinned = bool_of_field f.(1) in
+    let path = dec_strlist ',' f.(2) in
+    let hist = Stdlib.List.map dec_op (split_sep '|' f.(3)) in
+    let d = run pinned (empty_db path) hist in
+    (match effects_gen pinned d (dec_op f.(4)) with
+     | Ok es -> "ok#" ^ Stdlib.String.concat ";" (Stdlib.List.map (fun e -> show_effect (image e)) es)
+     | Err k -> "err:" ^ err_name k)
   | "crash" ->
     let lower = if f.(1) = "atomic" then lower_atomic else lower_inplace in
     enc_fs (crash_state lower (dec_fs f.(2)) (Stdlib.List.map dec_effect (split_sep ';' f.(3)))
